@@ -26,7 +26,10 @@ def contention(ctx, parts=("contend", "generic", "names", "invalid", "custom", "
     gor = 8 if ctx.quick else 16
     rounds = rounds or (4000 if ctx.quick else 60000)
     spec = {"contend": {"rounds": rounds, "goroutines": gor}}
-    rc, out, err = sh([binp], input=json.dumps(spec).encode(), timeout=600)
+    if "long" in parts:
+        # quick: 3 s; thorough: 11 minutes (longer than any plausible built-in patience of ten minutes)
+        spec["contend"]["long_ms"] = 3000 if ctx.quick else 660000
+    rc, out, err = sh([binp], input=json.dumps(spec).encode(), timeout=1500)
     if rc != 0:
         ctx.violation({"kind": "harness-run-failed", "rc": rc, "stderr": err[-1500:]}, case=spec, found_input=False)
         return
@@ -72,6 +75,10 @@ def contention(ctx, parts=("contend", "generic", "names", "invalid", "custom", "
     if ("names" in parts or "escaped" in parts) and sp and sp.get("empty_args") != [1, 1]:
         ctx.violation({"kind": "oracle", "oracle": "C01/C14", "clauses": ["one function requested bare, as mg.F(f) and as mg.F(f, empty...) with an empty non-nil argument list ran %s times (plain, variadic); equal (empty) argument lists are one dependency: exactly once each" % sp.get("empty_args")]},
                       case={"call": "mg.Deps(EaPlain, mg.F(EaPlain), mg.F(EaPlain, empty...)); mg.SerialDeps(mg.F(EaVariadic, empty...), mg.F(EaVariadic), EaVariadic)"})
+    if "long" in parts:
+        ctx.coverage["long_wait_probe_ms"] = spec["contend"]["long_ms"]
+        if r.get("long_wait"):
+            ctx.violation({"kind": "oracle", "oracle": "C02", "clauses": [r["long_wait"]]}, case={"call": "mg.SerialDeps(longDep)", "long_ms": spec["contend"]["long_ms"]})
     ctx.coverage["wide_calls_probe"] = r.get("wide")
     if "wide" in parts and r.get("wide"):
         ctx.violation({"kind": "oracle", "oracle": "C02", "clauses": ["one call naming many dependencies: %s" % "; ".join(r["wide"][:4])]},
